@@ -486,6 +486,20 @@ CheckerSeeds == {
   FoldSeed(<<"99999999999999999999">>, "Rejected")
 }
 ValidSeeds == {
+  \* a declaration whose initialiser folds to a statement that never yields (type !), and uses of the name as what it was declared to be
+  FoldSeed(<<"(", "(", ")", "->", "any", "{", "x", ":=", "if", "true", "return", "1", "else", "(", "1", ",", "2", ")", ";", "y", ":=", "x", ".", "0", ";", "return", "2", "}", ")">>, "Accepted"),
+  FoldSeed(<<"(", "(", ")", "->", "any", "{", "x", ":=", "if", "true", "return", "1", "else", "struct", "{", "a", ":=", "1", "}", ";", "y", ":=", "x", ".", "a", ";", "return", "2", "}", ")">>, "Accepted"),
+  FoldSeed(<<"(", "(", ")", "->", "any", "{", "x", ":=", "if", "true", "return", "1", "else", "(", ")", "->", "int", "{", "return", "1", "}", ";", "y", ":=", "x", "(", ")", ";", "return", "2", "}", ")">>, "Accepted"),
+  FoldSeed(<<"(", "(", ")", "->", "any", "{", "x", ":=", "if", "true", "return", "1", "else", "mut", "1", ";", "y", ":=", "*", "x", ";", "return", "2", "}", ")">>, "Accepted"),
+  FoldSeed(<<"(", "(", ")", "->", "any", "{", "x", ":=", "if", "true", "return", "1", "else", "mut", "1", ";", "y", ":=", "x", "+=", "1", ";", "return", "2", "}", ")">>, "Accepted"),
+  FoldSeed(<<"(", "(", ")", "->", "any", "{", "(", "a", ",", "b", ")", ":=", "if", "true", "return", "1", "else", "(", "1", ",", "2", ")", ";", "return", "a", "}", ")">>, "Accepted"),
+  FoldSeed(<<"(", "(", ")", "->", "any", "{", "x", ":=", "if", "true", "return", "1", "else", "[", "1", "]", "~", ";", "for", "e", "in", "x", "{", "}", "return", "2", "}", ")">>, "Accepted"),
+  FoldSeed(<<"(", "(", ")", "->", "any", "{", "x", ":=", "if", "true", "return", "1", "else", "[", "1", "]", "~", ";", "y", ":=", "x", "$]", ";", "return", "2", "}", ")">>, "Accepted"),
+  FoldSeed(<<"(", "(", ")", "->", "any", "{", "x", ":=", "if", "true", "return", "1", "else", "[", "1", "]", ";", "y", ":=", "x", "[", "0", "]", ";", "z", ":=", "x", "[", "0", ":", "1", "]", ";", "return", "2", "}", ")">>, "Accepted"),
+  FoldSeed(<<"(", "(", ")", "->", "any", "{", "x", ":=", "if", "false", "{", "(", "1", ",", "2", ")", "}", "else", "{", "return", "1", "}", ";", "y", ":=", "x", ".", "1", ";", "return", "2", "}", ")">>, "Accepted"),
+  FoldSeed(<<"(", "(", ")", "->", "any", "{", "x", ":=", "match", "1", "{", "1", "=>", "return", "1", ",", "=>", "(", "1", ",", "2", ")", ",", "}", ";", "y", ":=", "x", ".", "0", ";", "return", "2", "}", ")">>, "Accepted"),
+  FoldSeed(<<"(", "(", ")", "->", "any", "{", "x", ":=", "if", "true", "return", "1", "else", "(", "(", "1", ",", "2", ")", ",", "5", ")", ";", "y", ":=", "x", ".", "0", ".", "1", ";", "return", "2", "}", ")">>, "Accepted"),
+  FoldSeed(<<"(", "(", ")", "->", "any", "{", "x", ":=", "if", "true", "return", "1", "else", "5", ";", "y", ":=", "x", "+", "1", ";", "z", ":=", "-", "x", ";", "w", ":=", "[", "x", ";", "2", "]", ";", "return", "2", "}", ")">>, "Accepted"),
   \* a constant index / position / field into a literal with NON-constant elements (the folder selects an element)
   FoldSeed(<<"(", "(", "a", ":", "int", ")", "->", "any", "{", "return", "[", "a", ",", "7", "]", "[", "-", "1", "]", "}", ")">>, "Accepted"),
   FoldSeed(<<"(", "(", "a", ":", "int", ")", "->", "any", "{", "return", "[", "a", ",", "7", "]", "[", "-", "2", "]", "}", ")">>, "Accepted"),
